@@ -35,6 +35,48 @@ def close(a, b, exact, tol=TOL, scale=1.0):
     return abs(Fr(float(a)) - Fr(b)) <= Fr(tol) * max(1, abs(Fr(b)), Fr(scale))
 
 
+def check_point(name, method, nd, grids, table, pt, hs, der_row, what='returned'):
+    """Is der_row the derivative, at pt, of the values the interpolator returns?  5-point central
+    differences of fresh objects; returns (ok, msg)."""
+    tabscale = float(np.max(np.abs(table))) if table.size else 1.0
+
+    def value(p):
+        it2 = InterpND(method=name, points=tuple(grids), values=table, extrapolate=True)
+        return Fr(float(np.ravel(it2.interpolate(p.reshape(1, nd)))[0]))
+    for i in range(nd):
+        h = hs[i]
+
+        def fd(hh):
+            f = []
+            for s in (-2, -1, 1, 2):
+                p = pt.copy()
+                p[i] += s * hh
+                f.append(value(p))
+            return (f[0] - 8 * f[1] + 8 * f[2] - f[3]) / (12 * Fr(hh))
+        d_fd = fd(h)
+        smooth = method != 'akima' or (nd == 1)
+        tol = 1e-7
+        if not smooth:
+            # akima in several dimensions is not a polynomial in the outer coordinates (the slope weights
+            # use abs()); compare only where the difference quotients show no kink near the point
+            def one_sided(sgn, hh):
+                f = []
+                for s_ in (0, 1, 2):
+                    p = pt.copy()
+                    p[i] += sgn * s_ * hh
+                    f.append(value(p))
+                return sgn * (-3 * f[0] + 4 * f[1] - f[2]) / (2 * Fr(hh))
+            d_fd2 = fd(h / 4)
+            sc = max(1, abs(d_fd))
+            if abs(d_fd - d_fd2) > Fr(1e-6) * sc or abs(one_sided(1, h / 4) - one_sided(-1, h / 4)) > Fr(1e-3) * sc:
+                continue
+            tol = 1e-5
+        if not np.isfinite(der_row[i]) or not close(der_row[i], d_fd, False, tol, tabscale / h * 1e-3):
+            return False, '%s grids=%s point=%s: %s d/dx_%d = %r, difference quotient of the returned values = %r' % (
+                name, [[float(v) for v in g] for g in grids], pt.tolist(), what, i, float(der_row[i]), float(d_fd))
+    return True, ''
+
+
 def handle_grad(c):
     nd = len(c['grids'])
     grids = [np.array([float(fr(p)) for p in g]) for g in c['grids']]
@@ -58,49 +100,49 @@ def handle_grad(c):
     vals = np.array(vals, dtype=float).ravel()
     der = np.array(der, dtype=float).reshape(len(pts), nd)
     res = [[q(vals[j])] + [q(d) for d in der[j]] for j in range(len(pts))]
-    tabscale = float(np.max(np.abs(table))) if table.size else 1.0
     ok, msg = True, ''
     for j in range(len(pts)):
-        for i in range(nd):
-            h = hs[i]
-
-            def fd(hh):
-                f = []
-                for s in (-2, -1, 1, 2):
-                    p = pts[j].copy()
-                    p[i] += s * hh
-                    it2 = InterpND(method=name, points=tuple(grids), values=table, extrapolate=True)
-                    f.append(Fr(float(np.ravel(it2.interpolate(p.reshape(1, nd)))[0])))
-                return (f[0] - 8 * f[1] + 8 * f[2] - f[3]) / (12 * Fr(hh))
-            d_fd = fd(h)
-            smooth = c['method'] != 'akima' or (nd == 1)
-            tol = 1e-7
-            if not smooth:
-                # akima in several dimensions is not a polynomial in the outer coordinates (the slope weights
-                # use abs()); compare only where the difference quotients show no kink near the point
-                def one_sided(sgn, hh):
-                    f = []
-                    for s_ in (0, 1, 2):
-                        p = pts[j].copy()
-                        p[i] += sgn * s_ * hh
-                        it2 = InterpND(method=name, points=tuple(grids), values=table, extrapolate=True)
-                        f.append(Fr(float(np.ravel(it2.interpolate(p.reshape(1, nd)))[0])))
-                    return sgn * (-3 * f[0] + 4 * f[1] - f[2]) / (2 * Fr(hh))
-                d_fd2 = fd(h / 4)
-                sc = max(1, abs(d_fd))
-                if abs(d_fd - d_fd2) > Fr(1e-6) * sc or abs(one_sided(1, h / 4) - one_sided(-1, h / 4)) > Fr(1e-3) * sc:
-                    continue
-                tol = 1e-5
-            if not close(der[j, i], d_fd, False, tol, tabscale / h * 1e-3):
-                ok = False
-                msg = '%s grids=%s point=%s: returned d/dx_%d = %r, difference quotient of the returned values = %r' % (
-                    name, [[str(fr(p)) for p in g] for g in c['grids']], [str(fr(v)) for v in c['pts'][j]],
-                    i, float(der[j, i]), float(d_fd))
-                break
+        ok, msg = check_point(name, c['method'], nd, grids, table, pts[j], hs, der[j])
         if not ok:
             break
     model = not (c['method'] == 'akima' and nd > 1) and c['variant'] == 'general'
     return {'res': res if model else '__none__', 'ok': ok, 'msg': msg, 'sig': 'd_dx', 'kind': kind}
+
+
+def handle_gradapi(c):
+    """The public InterpND.gradient API in call sequences on ONE object:
+       ops: ['interp', pt, compute_derivative] | ['grad', pt] | ['mutgrad', pt_before, pt_after]
+       (mutgrad: interpolate(x) on an array x, change x in place, gradient(x)).
+       Every gradient returned must be the derivative, at the point it was asked for, of the values."""
+    nd = len(c['grids'])
+    grids = [np.array([float(fr(p)) for p in g]) for g in c['grids']]
+    table = np.array(conv(c['table'], nd))
+    hs = [float(fr(h)) for h in c['h']]
+    name = c['method'] if c['variant'] == 'general' else '%dD-%s' % (nd, c['method'])
+    kind = 'gradapi/%s/%dD/%s' % (name, nd, c['scenario'])
+    it = InterpND(method=name, points=tuple(grids), values=table, extrapolate=True)
+    res, ok, msg = [], True, ''
+    for op in c['ops']:
+        if op[0] == 'interp':
+            x = np.array([[float(fr(v)) for v in op[1]]])
+            it.interpolate(x, compute_derivative=bool(op[2]))
+            continue
+        if op[0] == 'grad':
+            pt = np.array([float(fr(v)) for v in op[1]])
+            g = np.ravel(np.array(it.gradient(pt.reshape(1, nd).copy()), dtype=float))
+            what = 'gradient()'
+        else:
+            x = np.array([[float(fr(v)) for v in op[1]]])
+            it.interpolate(x, compute_derivative=True)
+            pt = np.array([float(fr(v)) for v in op[2]])
+            x[0, :] = pt
+            g = np.ravel(np.array(it.gradient(x), dtype=float))
+            what = 'gradient(x) after x was changed in place,'
+        res.append([q(v) if np.isfinite(v) else None for v in g])
+        if ok:
+            ok, msg = check_point(name, c['method'], nd, grids, table, pt, hs, g, what + ' in scenario %s:' % c['scenario'])
+    model = not (c['method'] == 'akima' and nd > 1) and c['variant'] == 'general'
+    return {'res': res if model else '__none__', 'ok': ok, 'msg': msg, 'sig': 'gradient-api/' + c['scenario'], 'kind': kind}
 
 
 def flat(t):
@@ -211,23 +253,33 @@ def handle_spline(c):
         else:
             opts['x_cp_val'] = kw['points']
         comp = om.SplineComp(**opts)
-        comp.add_spline(y_cp_name='ycp', y_interp_name='y', y_cp_val=v.copy())
+        # several splines with different control points on ONE component
+        ctrl = [v] + [np.array([float(fr(x)) for x in e]) for e in c.get('extra', [])]
+        for k, cv in enumerate(ctrl):
+            comp.add_spline(y_cp_name='ycp%d' % k, y_interp_name='y%d' % k, y_cp_val=cv.copy())
         prob = om.Problem()
         prob.model.add_subsystem('s', comp, promotes=['*'])
         prob.setup()
-        prob.set_val('ycp', v.reshape(1, -1))
+        for k, cv in enumerate(ctrl):
+            prob.set_val('ycp%d' % k, cv.reshape(1, -1))
         prob.run_model()
-        yo = np.array(prob.get_val('y')).ravel()
-        Jc = np.array(prob.compute_totals(of=['y'], wrt=['ycp'], return_format='array'))
-        if np.max(np.abs(yo - yv)) > 1e-12 * scale:
-            ok, msg = False, 'SplineComp(%s) output %r, evaluate_spline %r' % (method, yo, yv)
-        elif np.max(np.abs(Jc - J)) > 1e-12 * scale:
-            ok, msg = False, 'SplineComp(%s) partials differ from evaluate_spline derivative' % method
+        for k, cv in enumerate(ctrl):
+            yk, Jk = ev(cv)
+            yo = np.array(prob.get_val('y%d' % k)).ravel()
+            Jc = np.array(prob.compute_totals(of=['y%d' % k], wrt=['ycp%d' % k], return_format='array'))
+            sck = max(scale, float(np.max(np.abs(cv))))
+            if np.max(np.abs(yo - yk)) > 1e-12 * sck:
+                ok, msg = False, 'SplineComp(%s) spline %d of %d: output %r, evaluate_spline %r' % (method, k, len(ctrl), yo, yk)
+                break
+            if np.max(np.abs(Jc - Jk)) > 1e-12 * sck:
+                ok, msg = False, 'SplineComp(%s) spline %d of %d: partials differ from the evaluate_spline derivative (max %g)' % (
+                    method, k, len(ctrl), float(np.max(np.abs(Jc - Jk))))
+                break
     return {'res': '__none__', 'ok': ok, 'msg': msg, 'sig': 'spline', 'kind': kind}
 
 
 def handle(c):
-    return {'grad': handle_grad, 'train': handle_train, 'spline': handle_spline}[c['kind']](c)
+    return {'grad': handle_grad, 'gradapi': handle_gradapi, 'train': handle_train, 'spline': handle_spline}[c['kind']](c)
 
 
 if __name__ == '__main__':
